@@ -21,6 +21,13 @@ CLAIMED.update({
    note="A race is reported only when a concrete schedule diverges (no false alarms from over-strict reading of 'ordered'); candidates that never diverge on the tried stores are only counted. User functions are pure; call order is not compared."),
 })
 
+CLAIMED.update({
+ "C11": dict(engine="E-step", level="fault_enumeration", design_ref="DESIGN.md §4 E-step / C11",
+   technique="deterministic simulation with fault injection: the k-th user-function call of a step raises; quick tier draws k, thorough tier enumerates every call index of the step; invariants after the fault and resumption equivalence against a fresh stepper",
+   text="For seeded programs with user-function calls (every call site individually named) and seeded pre-histories, the k-th call of a step raises one of five ordinary exception classes, separately in NumpyInterpreter and in the generated class. Checked: the very exception object reaches the caller (X1); no per-step name survives (X2); every persistent variable holds its pre-step value or a value the written program's fault-free step assigns in a statement that does not depend on the failing statement (X3); variables all of whose writes depend on the failing call are unchanged (X4); the faulted stepper and a fresh stepper installed with the same state and phase behave identically over 1..3 further operations, including a second fault (X5). Thorough tier enumerates all call indices of the faulted step (<=24).",
+   note="Interpreter schedules are a fixed function of (run seed, site, iteration) so the dry-run twin, the faulted stepper and the fresh stepper see the same schedule. X3/X4 are skipped (counted) when the fault-free step is ill-defined. Which phase is current after the fault is deliberately not a C11 matter (C01 checks the step protocol)."),
+})
+
 NOT_APPLICABLE = {
  "C06": "pure tree->tree function (simplify_ast) quantified over trees x truth assignments: no schedule, history, fault or configuration for a simulator to own; reached only indirectly through C01/C05",
  "C07": "rewriting passes are pure structured-program->structured-program functions run top to bottom; nothing to schedule or inject; reached only indirectly through C03",
